@@ -39,8 +39,15 @@ GRAMMARS = [
     ('nl-ign', 'start: A B', [A, B, TDef('NL', 're', '\\n', '', 0, 1), WS], ['NL', 'WS'], 'ab\n ', ['start']),
     ('leftrec', 'start: start C A | A', [A, TDef('C', 'str', ',')], [], 'a,', ['start']),
     ('prefix-coll', 'start: AB A?', [TDef('AB', 'str', 'ab'), A, B], [], 'ab', ['start']),
+    ('op-comment', 'start: NAME EQ NUM (SLASH NUM)?', [TDef('NAME', 're', '[ab]', '', 0, 1), TDef('EQ', 'str', '='), TDef('NUM', 're', '[12]', '', 0, 1),
+                                                         TDef('SLASH', 'str', '/'), TDef('COMMENT', 're', '//[^\\n]*', '', 0, INF), TDef('NL', 'str', '\n')],
+     ['COMMENT', 'NL'], 'a=1/\n', ['start']),
     ('long-first', 'start: AA B', [TDef('AA', 'str', 'aa'), B], [], 'ab', ['start']),
 ]
+
+
+EXTRA_TEXTS = {'op-comment': ['//a=1\nb=2', 'a=1//b=2\na=2/1', '//a=1\n//b=2\na=1', 'a=1/2//\n', 'b=2 //a=1'],
+               'kw-id': ['if a if b', 'a if ab iff'], 'nest': ['((a))', '(a))(a)', '()(a)']}
 
 
 def gtext(g):
@@ -50,7 +57,7 @@ def gtext(g):
 
 def plan(tier, seed):
     L = 6 if tier == 'quick' else 7
-    return [(gi, lexer, ub, L if len(GRAMMARS[gi][4]) <= 3 else L - 1, tier) for gi in range(len(GRAMMARS))
+    return [(gi, lexer, ub, L if len(GRAMMARS[gi][4]) <= 3 else (L - 1 if len(GRAMMARS[gi][4]) <= 4 else L), tier) for gi in range(len(GRAMMARS))
             for lexer in ('basic', 'contextual') for ub in (False, True)]
 
 
@@ -112,7 +119,7 @@ def check(gi, lexer, use_bytes, L, tier, res, only=None):
         res['viol'].append({'kind': 'construction', 'cause': 'construction', 'case': cfg, 'expected': 'constructed', 'observed': repr(r[1])[:300]})
         return
     p = r[1]
-    for w in util.strings(alpha, L):
+    for w in list(util.strings(alpha, L)) + EXTRA_TEXTS.get(name, []):
         text = w.encode('ascii') if use_bytes else w
         wins = [(0, len(w), True)]
         if tier == 'thorough' or len(w) <= 5:
